@@ -62,6 +62,11 @@ func genC19(t *rapid.T) c19Scenario {
 	ne := rapid.IntRange(3, 10).Draw(t, "nEvents")
 	for i := 0; i < ne; i++ {
 		sc.Events = append(sc.Events, rapid.IntRange(0, sc.N-1).Draw(t, "event"))
+		if rapid.IntRange(0, 3).Draw(t, "fault") == 0 {
+			// 100+: a single request fails in the proxy (the server resets the connection while it
+			// answers) although the health checks of every server keep passing
+			sc.Events = append(sc.Events, 100+rapid.IntRange(0, 1).Draw(t, "faultKind"))
+		}
 	}
 	return sc
 }
@@ -271,7 +276,43 @@ func execC19(sc c19Scenario) *vstat.Outcome {
 	}
 	// the initial synchronous health check has already settled the state
 	judge(fmt.Sprintf("c%d-init", c19Seq))
+	faultRound := func(phase string) *vstat.Outcome {
+		spec := "c19-reset"
+		for i := 0; i < sc.N; i++ {
+			c19Ups[i].setSpec(spec, &respSpec{Status: 200, Reset: true})
+		}
+		_ = do(c19Cl, reqSpec{Method: "POST", Addr: addr, Host: "c19.test", URI: "/c19/" + phase + "/fault", Header: http.Header{"X-Spec": []string{spec}}, Body: []byte("x")})
+		tmp := &vstat.Outcome{}
+		// no forced health check here: the servers are exactly as healthy as before
+		c19Phase(tmp, sc, addr, up, phase)
+		return tmp
+	}
 	for e, ev := range sc.Events {
+		if ev >= 100 {
+			anyUp := false
+			for i := 0; i < sc.N; i++ {
+				anyUp = anyUp || up[i]
+			}
+			if !anyUp {
+				continue
+			}
+			tmp := faultRound(fmt.Sprintf("c%d-e%d-afterfault", c19Seq, e))
+			if len(tmp.Violations) > 0 {
+				// a periodic check that overlapped the previous flip may have left a stale view: settle and repeat once
+				out.Class("fault_round_repeated_after_resettle")
+				settle()
+				tmp = faultRound(fmt.Sprintf("c%d-e%d-afterfault2", c19Seq, e))
+			}
+			for _, v := range tmp.Violations {
+				v.Msg = "after one request failed in the proxy (connection reset by the server while answering; its health checks pass): " + v.Msg
+				out.Violations = append(out.Violations, v)
+			}
+			out.Class("request_failed_at_the_proxy")
+			if len(out.Violations) > 0 {
+				break
+			}
+			continue
+		}
 		i := ev % sc.N
 		switch {
 		case sickMode:
